@@ -89,7 +89,7 @@ class Check:
         self.known = json.load(open(kf)) if os.path.exists(kf) else {"findings": [], "fixed": []}
         self.known_ids = {f["id"]: f for f in self.known.get("findings", []) if f.get("property") == prop}
         led = os.path.join(VERIF, "ledger.json")
-        self.ledger = json.load(open(led)).get(prop, {}) if os.path.exists(led) else {}
+        self.ledger = json.load(open(led)).get(prop, {}) if os.path.exists(led) and not os.environ.get("VERIF_WRITE_LEDGER") else {}  # not applied while it is being regenerated
 
     # ---------------------------------------------------------------- contracts
     def run_contract(self, c):
@@ -496,11 +496,22 @@ class Check:
             return 1
         if self.faults:
             return 3
+        rc = 0
         if getattr(self, "lost_functions", None):
             for fn, why in self.lost_functions:
                 print(f"UNDECIDED: property={self.prop} {fn} was under contract on the accepted tree and is outside the verifier's reach now ({why[:160]}); decided by the bounded stand-in only")
-            return 2
-        return 0
+            rc = 2
+        if self.undecided:
+            print(f"UNDECIDED: property={self.prop} {len(self.undecided)} obligation(s) were neither discharged nor refuted (listed above); nothing is claimed about them")
+            rc = 2
+        gone_fn = {fn for fn, _ in getattr(self, "lost_functions", [])}
+        only_thorough = set(self.ledger.get("__thorough_only__", [])) if self.tier != "thorough" else set()
+        missing = [cl for cl, st in self.ledger.items() if not cl.startswith("__") and st == "discharged" and cl not in clauses and cl not in only_thorough
+                   and not any(("." + fn + "[") in cl or cl.endswith("." + fn) for fn in gone_fn)]
+        if missing and self.ledger:
+            print(f"UNDECIDED: property={self.prop} {len(missing)} obligation(s) discharged on the accepted tree were not generated from the current source, e.g. {missing[0]}")
+            rc = 2
+        return rc
 
 
 def _has_quantifier(e):
